@@ -142,6 +142,14 @@ fn node(ctx: &mut E3Ctx, gs: &GameState, gold: bool, k: usize, left: &mut [u8; 6
         for a in va.iter() {
             let _ = gs.trapped_animal_for_action(a);
         }
+        // the plain accessors documented for the setup phase (piece_board_for_step / current_step are play-phase only)
+        let pb = gs.piece_board();
+        let mut acc = gs.is_play_phase() as u64 + gs.is_p1_turn_to_move() as u64 + gs.move_number() as u64 + gs.as_play_phase().is_some() as u64;
+        acc ^= pb.placement_bit() ^ pb.trapped_piece_bits() ^ pb.player_piece_mask(true) ^ pb.player_piece_mask(false);
+        for &p in PIECES.iter() {
+            acc ^= pb.bits_for_piece(p, true) ^ pb.bits_for_piece(p, false) ^ pb.bits_by_piece_type(p);
+        }
+        std::hint::black_box(acc);
         ctx.query = "";
     E3_QUERY.with(|q| q.set(""));
         ctx.stats.add("c19_queries", 7 + va.len() as u64);
